@@ -25,7 +25,8 @@ NEIGHBOURS = [{"from": "C04", "limit": 1500, "why": "inherited postconditions as
               {"from": "C18", "limit": 400, "why": "postconditions below foreign wrappers / of late decorated classes gate the return"},
               {"from": "C13", "limit": 400, "why": "postconditions of async callables are awaited and judged"},
               {"from": "C11", "limit": 400, "why": "after an exception postconditions gate the following calls again"},
-              {"from": "C07", "limit": 400, "why": "a violated postcondition raises the violation error whatever its message needs to re-evaluate"}]
+              {"from": "C07", "limit": 400, "why": "a violated postcondition raises the violation error whatever its message needs to re-evaluate"},
+              {"from": "C16", "tags": ["seq"], "limit": 500, "why": "a postcondition is judged on the values of the call at hand, whatever earlier calls supplied"}]
 
 
 def cases(tier, rng):
